@@ -119,13 +119,23 @@ func TestVerifC20Local(t *testing.T) {
 	var conc [][3]uint64
 	var wg sync.WaitGroup
 	start := make(chan struct{})
+	bars := make([]sync.WaitGroup, len(fresh))
+	for i := range bars {
+		bars[i].Add(workers)
+	}
 	for w := 0; w < workers; w++ {
 		wr := rand.New(rand.NewSource(vhfsSeed()*1000 + int64(w)))
 		wg.Add(1)
 		go func() {
 			defer wg.Done()
 			<-start
-			local := make([][3]uint64, 0, per)
+			local := make([][3]uint64, 0, per+len(fresh))
+			// rendezvous: all workers look the same fresh pair up at the same moment
+			for i, p := range fresh {
+				bars[i].Done()
+				bars[i].Wait()
+				local = append(local, [3]uint64{p.Dev, p.Ino, vh20Look(t, p)})
+			}
 			for i := 0; i < per; i++ {
 				var p vh20Pair
 				if wr.Intn(2) == 0 {
